@@ -129,7 +129,8 @@ func runSibShape(c *core.Ctx) []core.Obligation {
 	}
 	obs = append(obs, runTwinSearch(c)...)
 	obs = append(obs, cumulativeLookups(c)...)
-	obs = append(obs, polygonAccessors(c))
+	obs = append(obs, polygonAccessors(c), polygonEdgeSpace(c))
+	obs = append(obs, laxChainEdgeWrap(c))
 	return obs
 }
 
@@ -283,7 +284,6 @@ func runTwinSearch(c *core.Ctx) []core.Obligation {
 	return obs
 }
 
-
 // cumulativeLookups (after round-6 seed C06-r6m3, LaxPolygon.ChainPosition rewritten with sort.SearchInts): the
 // multi-loop shapes find the loop of an edge id in an array of cumulative counts. Loops may be EMPTY (the full
 // LaxPolygon is one empty loop), so the array has repeated entries, and the loop that owns edge e is the LAST one
@@ -360,7 +360,6 @@ func cumulativeLookups(c *core.Ctx) []core.Obligation {
 	return obs
 }
 
-
 // polygonAccessors (after round-7 seed C06-r7m1, Polygon.ChainEdge delegating to Loop.ChainEdge): a polygon
 // enumerates the vertices of a hole in reverse (OrientedVertex) so that its interior is on the left; Loop's own
 // accessors (Vertex, Edge, ChainEdge) use the stored order. Polygon.Edge and Polygon.ChainEdge must read loop vertices
@@ -421,4 +420,69 @@ func polygonAccessors(c *core.Ctx) core.Obligation {
 			"Polygon.Edge reads loop vertices through {"+names(a)+"} but Polygon.ChainEdge through {"+names(b)+"}: for a hole (odd depth) the two run in opposite directions, so ChainEdge(i, j) is not Edge(Chain(i).Start + j) but a reversed edge from the other end of the loop")
 	}
 	return core.Ob("R-SIBSHAPE", construct, c.Pos(chainEdge.Pos()), core.FuncName(chainEdge), core.Discharged, "both read loop vertices through "+names(a))
+}
+
+// laxChainEdgeWrap (after round-8 seed C06-r8m1, the wrap-around of LaxPolygon.ChainEdge rewritten with absolute
+// indices and compared with the end of the WHOLE vertex array): the last edge of loop i closes loop i, so on the
+// multi-loop path the test that decides the wrap compares with a quantity of loop i (numLoopVertices(i), or an entry of
+// cumulativeVertices), never with the polygon's total vertex count - otherwise the last edge of every loop but the
+// last ends at the first vertex of the NEXT loop, and ChainEdge(i, n-1) is not Edge(Chain(i).Start + n - 1).
+func laxChainEdgeWrap(c *core.Ctx) core.Obligation {
+	const construct = "LaxPolygon.ChainEdge:wrap-at-end-of-own-loop"
+	fn := c.Fn("s2", "LaxPolygon", "ChainEdge")
+	if fn == nil {
+		return core.Ob("R-SIBSHAPE", construct, "-", "", core.Violated, "unresolved anchor")
+	}
+	// the single-loop branch: blocks dominated by the true side of numLoops == 1
+	var single []core.Edge
+	for _, b := range fn.Blocks {
+		ifi, ok := b.Instrs[len(b.Instrs)-1].(*ssa.If)
+		if !ok {
+			continue
+		}
+		bo, ok := ifi.Cond.(*ssa.BinOp)
+		if !ok || bo.Op != token.EQL {
+			continue
+		}
+		if fr, ok := core.AsFieldLoad(bo.X); ok && fr.Name == "numLoops" {
+			single = append(single, core.Edge{From: b, Idx: 0})
+		}
+	}
+	isTotal := func(v ssa.Value) bool {
+		if call, ok := v.(*ssa.Call); ok && core.StaticCallee(call) != nil && core.StaticCallee(call).Name() == "numVertices" {
+			return true
+		}
+		fr, ok := core.AsFieldLoad(v)
+		return ok && fr.Name == "numVerts"
+	}
+	nwrap, bad := 0, ""
+	core.AllInstrs(fn, func(in ssa.Instruction) {
+		bo, ok := in.(*ssa.BinOp)
+		if !ok || (bo.Op != token.EQL && bo.Op != token.NEQ) {
+			return
+		}
+		if _, isField := core.AsFieldLoad(bo.X); isField {
+			if fr, _ := core.AsFieldLoad(bo.X); fr.Name == "numLoops" {
+				return
+			}
+		}
+		nwrap++
+		if !isTotal(bo.X) && !isTotal(bo.Y) {
+			return
+		}
+		for _, e := range single {
+			if core.EdgeDominates(e, bo.Block()) || e.From == bo.Block() {
+				return // single loop: the total IS the loop's count
+			}
+		}
+		bad = c.Pos(bo.Pos())
+	})
+	switch {
+	case nwrap == 0:
+		return core.Ob("R-SIBSHAPE", construct, c.Pos(fn.Pos()), core.FuncName(fn), core.Violated, "unresolved anchor: no wrap-around test found in ChainEdge")
+	case bad != "":
+		return core.Ob("R-SIBSHAPE", construct, bad, core.FuncName(fn), core.Violated,
+			"on the multi-loop path the wrap-around test compares with the polygon's TOTAL vertex count: only the last loop ends there, so ChainEdge(i, n-1) of every other loop ends at the first vertex of the next loop instead of closing loop i, and the (chain, offset) enumeration of the edges differs from the enumeration by edge id")
+	}
+	return core.Ob("R-SIBSHAPE", construct, c.Pos(fn.Pos()), core.FuncName(fn), core.Discharged, fmt.Sprintf("%d wrap-around test(s); on the multi-loop path none compares with the total vertex count", nwrap))
 }
